@@ -8,7 +8,6 @@ VERIF = os.path.dirname(os.path.dirname(os.path.abspath(__file__)))
 NOT_APPLICABLE = {
     "C11": "row equality with a reference Cypher evaluator over generated graphs and queries is a function of runtime values; no clause of it is visible in the shape of the code",
     "C12": "update semantics and change counts against a reference model are runtime-value behaviour; no structural clause is a necessary condition I can name without freezing source text",
-    "C26": "sorted-multimap behaviour of the B-tree under arbitrary operation sequences is algorithmic correctness of a data structure, not a code-shape property",
     "C27": "order and equality preservation of the key encoding quantifies over all integers, floats and strings; only tag distinctness is structural and it is too weak to claim the property through",
 }
 
